@@ -124,7 +124,7 @@ def validate(run, prop, scns, tpath, verdict, max_rejections=4, chunk_events=400
         known = any(f.get("signature") == sig for f in verdict.known)
         extra = {}
         if scenario and not known and not verdict.violations and not os.environ.get("VERIF_NO_MINIMISE"):
-            small, tries = minimise(run, scenario, sig)
+            small, tries = minimise(run, scenario, sig, budget=6 if sig.startswith("stall") else 40)   # a stall costs 10 s per attempt
             if len(small["ops"]) < len(scenario["ops"]):
                 extra = {"original_scenario": scenario, "minimised_in_runs": tries}
                 scenario = small
